@@ -1210,10 +1210,37 @@ func (c *SpecCtx) evalCall(e *ECall) Val {
 		if v.Cell {
 			return Val{T: v.T, Typ: types.NewPointer(v.Typ)}
 		}
-		if _, isPtr := v.Typ.Underlying().(*types.Pointer); isPtr {
-			return v // a struct kept in memory is already denoted by its cell
-		}
 		c.fail("addr(%s): the variable does not live in memory", id.Name)
+	case "newer":
+		// newer(x, k): the object x refers to (pointer, slice backing array, map) was allocated during the current
+		// iteration of loop k (after its header)
+		if c.fr == nil || len(e.Args) != 2 {
+			c.fail("newer(x, k) not available here")
+		}
+		kv := c.eval(e.Args[1])
+		if !kv.isConst() {
+			c.fail("newer: loop ordinal must be a constant")
+		}
+		k64, _ := constant.Int64Val(kv.Const)
+		var hst *State
+		for _, ol := range c.fr.loops {
+			if ol.ordinal == int(k64) {
+				hst = ol.hdrSt
+			}
+		}
+		if hst == nil {
+			c.fail("newer(x, %d): loop %d has not been entered on this path", k64, k64)
+		}
+		x := c.eval(e.Args[0])
+		switch x.Typ.Underlying().(type) {
+		case *types.Pointer:
+			return Val{T: fmt.Sprintf("(> %s %s)", pObj(x.T), hst.wm), Typ: boolT}
+		case *types.Slice:
+			return Val{T: fmt.Sprintf("(> %s %s)", sArr(x.T), hst.wm), Typ: boolT}
+		case *types.Map:
+			return Val{T: fmt.Sprintf("(> %s %s)", x.T, hst.wm), Typ: boolT}
+		}
+		c.fail("newer of %s", x.Typ)
 	case "inarray":
 		// inarray(p, s): pointer p points into the backing array of slice s
 		pv := c.eval(e.Args[0])
